@@ -18,15 +18,19 @@ import (
 	"slices"
 	"sync"
 	"strings"
+	"time"
 	"testing"
 
 	"github.com/AdguardTeam/AdGuardDNS/internal/agd"
 	"github.com/AdguardTeam/AdGuardDNS/internal/agdcache"
 	"github.com/AdguardTeam/AdGuardDNS/internal/agdtest"
 	"github.com/AdguardTeam/AdGuardDNS/internal/dnsserver"
+	"github.com/AdguardTeam/AdGuardDNS/internal/dnssvc/internal/mainmw"
 	"github.com/AdguardTeam/AdGuardDNS/internal/dnssvc/internal/ratelimitmw"
 	"github.com/AdguardTeam/AdGuardDNS/internal/ecscache"
+	"github.com/AdguardTeam/AdGuardDNS/internal/filter"
 	"github.com/AdguardTeam/AdGuardDNS/internal/geoip"
+	"github.com/AdguardTeam/AdGuardDNS/internal/querylog"
 	"github.com/AdguardTeam/golibs/logutil/slogutil"
 	"github.com/AdguardTeam/golibs/netutil"
 	"github.com/miekg/dns"
@@ -299,7 +303,44 @@ func vc05NewStack(tb testing.TB, env *vc05Env) (s *vc05Stack) {
 		EDEEnabled: true,
 	})
 
-	return &vc05Stack{h: rlMw.Wrap(cacheMw.Wrap(up)), up: up}
+	// The main (filtering) middleware sits between the two, as in
+	// dnssvc.NewHandlers.  Its filter rewrites questions for cn-<name> into
+	// <name> (what a CNAME $dnsrewrite rule or safe search does), so that the
+	// ECS cache is also reached through the rewritten-request path, which
+	// builds its own request information.
+	flt := &agdtest.Filter{
+		OnFilterRequest: func(_ context.Context, req *filter.Request) (r filter.Result, err error) {
+			q := req.DNS.Question[0]
+			if len(q.Name) < 4 || !strings.EqualFold(q.Name[:3], "cn-") {
+				return nil, nil
+			}
+
+			mod := req.DNS.Copy()
+			mod.Question[0].Name = strings.ToLower(q.Name[3:])
+
+			return &filter.ResultModifiedRequest{Msg: mod, List: "verif_c05", Rule: "cname-rewrite"}, nil
+		},
+		OnFilterResponse: func(context.Context, *filter.Response) (filter.Result, error) { return nil, nil },
+	}
+	mainMw := mainmw.New(&mainmw.Config{
+		Cloner:   agdtest.NewCloner(),
+		Logger:   slogutil.NewDiscardLogger(),
+		Messages: agdtest.NewConstructor(tb),
+		BillStat: &agdtest.BillStatRecorder{
+			OnRecord: func(context.Context, agd.DeviceID, geoip.Country, geoip.ASN, time.Time, agd.Protocol) {},
+		},
+		ErrColl: agdtest.NewErrorCollector(),
+		FilterStorage: &agdtest.FilterStorage{
+			OnForConfig: func(context.Context, filter.Config) filter.Interface { return flt },
+			OnHasListID: func(filter.ID) bool { return true },
+		},
+		GeoIP:    geo,
+		Metrics:  mainmw.EmptyMetrics{},
+		QueryLog: &agdtest.QueryLog{OnWrite: func(context.Context, *querylog.Entry) error { return nil }},
+		RuleStat: &agdtest.RuleStat{OnCollect: func(context.Context, filter.ID, filter.RuleText) {}},
+	})
+
+	return &vc05Stack{h: rlMw.Wrap(mainMw.Wrap(cacheMw.Wrap(up))), up: up}
 }
 
 // vc05UseRealAddrs switches the address generator to the test databases'
@@ -518,8 +559,8 @@ func vc05BuildReq(t *rapid.T, name string, qt uint16, do bool, c vc05Client) (re
 
 func TestVerifC05History(tt *testing.T) {
 	st := vstat.New("C05", "dnssvc.ecs-history",
-		"rapid histories of clients (v4/v6, known/unknown location, ECS none/valid/declined/malformed/two options) asking overlapping scoped and unscoped names through ratelimitmw+ecscache in front of a subnet-tagging upstream, model GeoIP database; non-trivial = cache hit on a scoped name, or a declined or malformed request; distinct by (question, client ECS mode, effective subnet, hit)",
-		"hit-scoped", "declined", "malformed", "declined-after-scoped-cached", "scoped-other-subnet", "valid-ecs", "two-ecs-options")
+		"rapid histories of clients (v4/v6, known/unknown location, ECS none/valid/declined/malformed/two options) asking overlapping scoped and unscoped names (one in five answered through a filter CNAME rewrite of the question) through ratelimitmw+mainmw+ecscache in front of a subnet-tagging upstream, model GeoIP database; non-trivial = cache hit on a scoped name, or a declined or malformed request; distinct by (question, client ECS mode, effective subnet, hit)",
+		"hit-scoped", "declined", "malformed", "declined-after-scoped-cached", "scoped-other-subnet", "valid-ecs", "two-ecs-options", "question-rewritten-by-filter+ecs")
 	st.Finish(tt)
 
 	vc05UseRealAddrs = false
@@ -536,7 +577,7 @@ func TestVerifC05History(tt *testing.T) {
 func TestVerifC05RealGeoIP(tt *testing.T) {
 	st := vstat.New("C05", "dnssvc.ecs-history-real-geoip",
 		"as dnssvc.ecs-history, but the GeoIP database is geoip.File on the repository's test MMDB files and client / ECS addresses are drawn from networks those files know (AU/ASN 1221, US/WA, JP, SE, GB) and do not know; the allowed upstream subnets are obtained from the database itself; non-trivial and distinct as above",
-		"hit-scoped", "declined", "malformed", "valid-ecs", "upstream-nonzero-subnet", "ecs-ipv4-mapped")
+		"hit-scoped", "declined", "malformed", "valid-ecs", "upstream-nonzero-subnet", "ecs-ipv4-mapped", "question-rewritten-by-filter+ecs")
 	st.Finish(tt)
 
 	vc05UseRealAddrs = true
@@ -593,6 +634,10 @@ func vc05RunHistories(tt *testing.T, st *vstat.Stats, env *vc05Env) {
 				kind := rapid.SampledFrom([]vdns.Kind{vdns.KA, vdns.KA, vdns.KAMixed, vdns.KCNAME, vdns.KNodataSOA, vdns.KNX, vdns.KServfail, vdns.KRefused}).Draw(t, "kind")
 				zone := rapid.SampledFrom([]string{"s.test.", "s.test.", "u.test."}).Draw(t, "zone")
 				name := vdns.Name(kind, 6, zone) // TTL 300: nothing expires within a case
+				if rapid.IntRange(0, 4).Draw(t, "rewritten") == 0 {
+					// answered through the filter's CNAME rewrite of the question
+					name = "cn-" + name
+				}
 				if rapid.IntRange(0, 11).Draw(t, "minimalName") == 0 {
 					// the root and one-letter names (TTL 5, still far longer than a case)
 					name = rapid.SampledFrom(vdns.MinimalNames).Draw(t, "minimal")
@@ -614,6 +659,12 @@ func vc05RunHistories(tt *testing.T, st *vstat.Stats, env *vc05Env) {
 			qk := vdns.QKey(req.Question[0], a.do)
 			scoped := vc05Scoped(a.name)
 			classes := []string{"ecs-" + vc05ModeNames[c.Mode]}
+			if strings.HasPrefix(a.name, "cn-") {
+				classes = append(classes, "question-rewritten-by-filter")
+				if c.Mode != vc05None {
+					classes = append(classes, "question-rewritten-by-filter+ecs")
+				}
+			}
 
 			if resp == nil {
 				t.Fatalf("history %v: no response", hist)
